@@ -615,6 +615,9 @@ func parseAnswer(rq *Req, a answer) {
 
 const wait = 15 * time.Second
 
+// a request that never came back (a deadlock inside the reader): the process is not driven any further
+var stuck bool
+
 func runOverlap(c *Case) {
 	c.Trace, c.Err = nil, ""
 	b := &backend{c: c, abortCh: make(chan struct{})}
@@ -660,6 +663,7 @@ func runOverlap(c *Case) {
 			b.event(Ev{E: "end", R: r})
 		case <-time.After(wait):
 			c.Err = fmt.Sprintf("request %d did not reach its next point", r)
+			stuck = true
 		}
 		if c.Err != "" {
 			break
@@ -680,6 +684,7 @@ func runOverlap(c *Case) {
 				}
 			case <-time.After(wait):
 				c.Err = fmt.Sprintf("request %d never answered", r)
+				stuck = true
 			}
 		} else if !rs.started && c.Err == "" {
 			c.Err = fmt.Sprintf("request %d never started", r)
@@ -982,14 +987,21 @@ func runCase(c *Case) {
 func main() {
 	f := hx.ParseFlags()
 	out := hx.OpenOut(f.Out)
-	defer out.Close()
 	setup()
-	defer srv.Close()
+	defer func() {
+		out.Close()
+		if !stuck { // httptest's Close waits for the requests still in flight
+			srv.Close()
+		}
+	}()
 	if f.Cases != "" {
 		hx.ReadLines(f.Cases, func(b []byte) {
 			var c Case
 			if err := json.Unmarshal(b, &c); err != nil {
 				panic(err)
+			}
+			if stuck {
+				return
 			}
 			runCase(&c)
 			out.Put(c)
@@ -1008,5 +1020,8 @@ func main() {
 		}
 		runCase(&c)
 		out.Put(c)
+		if stuck {
+			break
+		}
 	}
 }
